@@ -257,6 +257,23 @@ func c20Table(seed []byte) []func() *c20Val {
 		v6(func() dhcpv6.Option {
 			return &dhcpv6.OptVendorOpts{EnterpriseNumber: 9, VendorOpts: dhcpv6.Options{&dhcpv6.OptionGeneric{OptionCode: 1}, &dhcpv6.OptionGeneric{OptionCode: 1, OptionData: bs(0, 2)}, &dhcpv6.OptionGeneric{OptionCode: 0, OptionData: []byte{}}}}
 		}),
+		// arguments in non-canonical form (host bits behind the prefix, unmasked networks, mixed-case names): printing
+		// may show the canonical form; the value stays what the caller built
+		v4(func() dhcpv4.Option {
+			return dhcpv4.OptClasslessStaticRoute(&dhcpv4.Route{Dest: &net.IPNet{IP: net.IP{10, 1, 1, 129}, Mask: net.CIDRMask(25, 32)}, Router: net.IP(bs(0, 4))},
+				&dhcpv4.Route{Dest: &net.IPNet{IP: net.IP{192, 168, 77, 255}, Mask: net.CIDRMask(9, 32)}, Router: net.IP(bs(1, 4))},
+				&dhcpv4.Route{Dest: &net.IPNet{IP: net.IP{1, 2, 3, 4}, Mask: net.CIDRMask(0, 32)}, Router: net.IP(bs(2, 4))})
+		}),
+		v4(func() dhcpv4.Option { return dhcpv4.OptSubnetMask(net.IPMask{255, 0, 255, 1}) }),
+		v6(func() dhcpv6.Option {
+			return &dhcpv6.OptIAPrefix{PreferredLifetime: time.Hour, ValidLifetime: time.Hour, Prefix: &net.IPNet{IP: net.ParseIP("2001:db8:1:2:3:4:5:6"), Mask: net.CIDRMask(57, 128)}}
+		}),
+		v6(func() dhcpv6.Option {
+			return &dhcpv6.Opt4RDMapRule{Prefix4: net.IPNet{IP: net.IP{10, 200, 3, 255}, Mask: net.CIDRMask(13, 32)}, Prefix6: net.IPNet{IP: net.ParseIP("2001:db8:ffff:ffff::1"), Mask: net.CIDRMask(41, 128)}, EABitsLength: 5}
+		}),
+		v4(func() dhcpv4.Option {
+			return dhcpv4.OptDomainSearch(&rfc1035label.Labels{Labels: []string{"MiXed.Example.ORG", "trailing.dot.example."}})
+		}),
 		// list elements longer than their length field can announce, followed by ordinary ones (an encoder may skip, cut
 		// or refuse such an element; the list the caller built stays the caller's)
 		v6(func() dhcpv6.Option { return dhcpv6.OptBootFileParam("a", string(bs(0, 65536)), "b", "c") }),
@@ -376,7 +393,7 @@ var c20 = newChk("C20", "read-only",
 
 func genC20() *rapid.Generator[c20Case] {
 	return rapid.Custom(func(t *rapid.T) c20Case {
-		c := c20Case{Kind: rapid.IntRange(0, 4).Draw(t, "kind"), Opt: rapid.IntRange(0, 70).Draw(t, "opt")}
+		c := c20Case{Kind: rapid.IntRange(0, 4).Draw(t, "kind"), Opt: rapid.IntRange(0, 80).Draw(t, "opt")}
 		switch c.Kind {
 		case 0, 1:
 			c.B = gen.V4Wire(6, 300, 0).Draw(t, "v4")
